@@ -234,7 +234,8 @@ class Contract:
 
 def contract(qual, serves=(), mode="real"):
     def deco(fn):
-        c = Contract(qual, serves, mode)
+        c = Contract(qual.split("#")[0], serves, mode)
+        c.variant = qual.split("#")[1] if "#" in qual else None
         fn(c)
         REGISTRY[qual] = c
         return fn
